@@ -84,17 +84,13 @@ def rand_mpo(rng, L=None, d=None, maxD=3, dtype=None, consistent=True, qd=None, 
 
 
 def copy_mps(m):
-    import pytenet as ptn
-    c = ptn.MPS(m.qd.copy(), [q.copy() for q in m.qD], fill='postpone')
-    c.A = [a.copy() for a in m.A]
-    return c
+    import copy
+    return copy.deepcopy(m)
 
 
 def copy_mpo(m):
-    import pytenet as ptn
-    c = ptn.MPO(m.qd.copy(), [q.copy() for q in m.qD], fill='postpone')
-    c.A = [a.copy() for a in m.A]
-    return c
+    import copy
+    return copy.deepcopy(m)
 
 
 def enc_mp(m):
